@@ -516,7 +516,10 @@ func c08Exec(sc c08Scenario, kind string, trigger int, timeoutFlavour bool, clie
 		return
 	}
 	if l := c08Settle(base, c08Bound+time.Second); len(l) > 0 {
-		o.leak = append(o.leak, l...)
+		// look again, longer, before calling it a leak (a stalled machine delays goroutine exit too)
+		if l = c08Settle(base, 2*c08Bound); len(l) > 0 {
+			o.leak = append(o.leak, l...)
+		}
 	}
 	return
 }
@@ -670,13 +673,34 @@ func c08ScriptLane(t *testing.T, proto string, lane string) {
 	cnt := map[string]int{}
 	count := func(k string) { cnt[k]++; s.Count(k) }
 	hung := false
-	record := func(o c08Obs, id string, n int) {
+	var record func(o c08Obs, id string, n int)
+	confirmed := map[string]bool{}
+	slowOnce := func(o c08Obs) bool {
+		if o.hung || (!o.fired && o.trigger >= 0) {
+			return true
+		}
+		return o.fired && !o.early && o.elapsed > c08Bound
+	}
+	record0 := func(o c08Obs, id string, n int) {
+		// a call that does not return (in time) / a script that does not get to its point has to
+		// show twice: a stalled, shared machine produces the same picture once
+		if slowOnce(o) && !confirmed[id] {
+			confirmed[id] = true
+			count("slow-case-run-again")
+			o2 := c08Exec(o.sc, o.kind, o.trigger, o.timeout, 1500*time.Millisecond)
+			if !slowOnce(o2) {
+				o = o2
+			}
+		}
+		record(o, id, n)
+	}
+	record = func(o c08Obs, id string, n int) {
 		if o.hung {
 			hung = true // the stuck call keeps its goroutines: later censuses would be polluted
 		}
 		if !o.fired {
 			// the exchange ended before reaching the point (must not happen: same script)
-			s.Observe(id, false, "", true, id, fmt.Sprintf("injection point %d of %d never reached; events=%v", o.trigger, n, o.names))
+			s.Observe(id, false, "", true, id, fmt.Sprintf("injection point %d of %d never reached; res=%s err=%v hung=%v events=%v", o.trigger, n, o.res, o.err, o.hung, o.names))
 			return
 		}
 		ok, failed, class := c08Judge(o)
@@ -759,7 +783,7 @@ func c08ScriptLane(t *testing.T, proto string, lane string) {
 					break
 				}
 				o := c08Exec(sc, kind, k, false, 0)
-				record(o, fmt.Sprintf("%s/%s/%s/%d", proto, sc.name, kind, k), n)
+				record0(o, fmt.Sprintf("%s/%s/%s/%d", proto, sc.name, kind, k), n)
 			}
 		}
 
@@ -797,7 +821,7 @@ func c08ScriptLane(t *testing.T, proto string, lane string) {
 					continue
 				}
 				count("client-timeout")
-				record(o, fmt.Sprintf("%s/%s/client-timeout/%d", proto, sc.name, k), n)
+				record0(o, fmt.Sprintf("%s/%s/client-timeout/%d", proto, sc.name, k), n)
 			}
 		}
 	}
@@ -821,7 +845,7 @@ func c08ScriptLane(t *testing.T, proto string, lane string) {
 				continue
 			}
 			count("midsleep")
-			record(o, fmt.Sprintf("%s/retry-midsleep/%s", proto, kind), 0)
+			record0(o, fmt.Sprintf("%s/retry-midsleep/%s", proto, kind), 0)
 		}
 	}
 	must := []string{"dry-ok", "point=dialStart", "point=dialDone", "point=wroteHdr", "point=wrote", "point=wroteLast",
